@@ -1174,7 +1174,8 @@ def _oauth_signature(
     # urlsplit, not urlparse: ";" is part of the path (RFC 3986).
     parts = urllib.parse.urlsplit(url)
     scheme, netloc, path = parts[:3]
-    normalized_url = scheme.lower() + "://" + netloc.lower() + path
+    netloc = _oauth_normalize_netloc(scheme, netloc)
+    normalized_url = scheme.lower() + "://" + netloc + path
 
     base_elems = []
     base_elems.append(method.upper())
@@ -1204,7 +1205,8 @@ def _oauth10a_signature(
     # urlsplit, not urlparse: ";" is part of the path (RFC 3986).
     parts = urllib.parse.urlsplit(url)
     scheme, netloc, path = parts[:3]
-    normalized_url = scheme.lower() + "://" + netloc.lower() + path
+    netloc = _oauth_normalize_netloc(scheme, netloc)
+    normalized_url = scheme.lower() + "://" + netloc + path
 
     base_elems = []
     base_elems.append(method.upper())
@@ -1226,6 +1228,16 @@ def _oauth_escape(val: str | bytes) -> str:
     if isinstance(val, unicode_type):
         val = val.encode("utf-8")
     return urllib.parse.quote(val, safe="~")
+
+
+def _oauth_normalize_netloc(scheme: str, netloc: str) -> str:
+    # RFC 5849 section 3.4.1.2: the host is lowercased and the port is
+    # included only if it is not the default port for the scheme.
+    netloc = netloc.lower()
+    default_port = {"http": ":80", "https": ":443"}.get(scheme.lower())
+    if default_port and netloc.endswith(default_port):
+        netloc = netloc[: -len(default_port)]
+    return netloc
 
 
 def _oauth_normalized_parameters(parameters: dict[str, Any]) -> str:
